@@ -160,8 +160,10 @@ def case_rep(c):
         rec["consumed"] = [tape_entry(d) for d in shared.tape[pos0:]]
         rec["alts_before"], rec["alts_after"] = alts0, alts_obs(g, classes)
         snaps1 = [R.snapshot(x) for x in reg[: len(snaps0)]]
-        rec["changed"] = [i for i, (a, b) in enumerate(zip(snaps0, snaps1)) if a != b and not extends(a, b)]
-        rec["extended"] = [i for i, (a, b) in enumerate(zip(snaps0, snaps1)) if a != b and extends(a, b)]
+        # the one permitted change: dSGE mapping extends the genotype BEING MAPPED (nobody else's genes)
+        own = op[1] if kind == "map" else None
+        rec["changed"] = [i for i, (a, b) in enumerate(zip(snaps0, snaps1)) if a != b and not (i == own and extends(a, b))]
+        rec["extended"] = [i for i, (a, b) in enumerate(zip(snaps0, snaps1)) if a != b and i == own and extends(a, b)]
         e = getattr(R.decider, "expanding", None) if R.decider is not None else None
         rec["expanding_after"] = e if isinstance(e, bool) else None
         out.append(rec)
